@@ -4,8 +4,10 @@
 // Input space: EVERY directed multigraph with n <= 3 nodes given as an ORDERED
 // edge list of m <= 3 (quick) / m <= 4 (thorough; plus n = 4, m <= 3) edges --
 // so self loops, parallel edges, isolated nodes, empty graphs, odd and even
-// edge counts are all in it -- times the edge-data widths 0 / 4 / 8 bytes,
-// times the on-disk format versions 1 and 2 where the component supports them.
+// edge counts are all in it -- times the edge-data widths 0 / 4 / 8 / 1 bytes,
+// times the on-disk format versions 1 and 2 where the component supports them
+// (one case per component and version, so that a defect confined to one
+// version cannot crowd out the findings of the other).
 // Edge i of the list carries the data value val(width, i); all values are
 // distinct and non-zero so a shifted / truncated / zeroed edge-data section is
 // always visible.
@@ -31,9 +33,16 @@
 //   BufferedGraph "currently only supports version 1" (BufferedGraph.h)
 //   FileGraph::neighbor_begin/end, node_id_begin/end  version 1 only
 //
+// The harness is compiled with -fno-access-control (build_e2_harness); the
+// only non-public member it reads is FileGraph::edgeData, to turn "the reader
+// found no edge-data section" into a reported finding instead of the
+// assert(edgeData) / null dereference that would kill the worker.
+//
 // Non-trivial rule (sx::mark_nontrivial): the graph has at least one edge AND
 // (edge data present with an odd edge count [padding matters], or some node has
-// >= 2 out-edges [sequence matters], or a proper sub-range was read).
+// >= 2 out-edges [sequence matters]); for the sub-range cases: a proper
+// sub-range that holds at least one edge (containsNode: a part not starting at
+// node 0).
 #include "seqx.h"
 #include "gr_format.h"
 
@@ -67,16 +76,22 @@ static void rt() {
   if (G)
     return;
   setenv("GALOIS_DO_NOT_BIND_THREADS", "1", 1);
+  setenv("GALOIS_DEBUG_SKIP", "1", 1); // gDebug() chatter off, asserts stay on
   cpu_set_t all, few;
   CPU_ZERO(&all);
   CPU_ZERO(&few);
   sched_getaffinity(0, sizeof all, &all);
-  int k = 0;
-  for (int c = 0; c < CPU_SETSIZE && k < 2; ++c)
-    if (CPU_ISSET(c, &all)) {
-      CPU_SET(c, &few);
-      ++k;
-    }
+  // two of the allowed CPUs, chosen by pid (not always the first two: other
+  // jobs on the box may be pinned there)
+  std::vector<int> allowed;
+  for (int c = 0; c < CPU_SETSIZE; ++c)
+    if (CPU_ISSET(c, &all))
+      allowed.push_back(c);
+  if (allowed.empty())
+    allowed.push_back(0);
+  size_t start = (size_t)getpid() * 7919u;
+  for (size_t k = 0; k < 2 && k < allowed.size(); ++k)
+    CPU_SET(allowed[(start + k) % allowed.size()], &few);
   sched_setaffinity(0, sizeof few, &few);
   G        = new galois::SharedMemSys();
   auto& tp = galois::substrate::getThreadPool();
@@ -169,7 +184,8 @@ static std::string graph_str(const GIn& g) {
   return o.str();
 }
 
-static const int WIDTHS[3] = {0, 4, 8};
+static const int WIDTHS[4] = {0, 4, 8, 1};
+static const int NWIDTHS = 4;
 
 // data of the edge with index i in the ordered edge list
 static uint64_t val(int width, uint64_t i) {
@@ -177,7 +193,17 @@ static uint64_t val(int width, uint64_t i) {
     return (uint32_t)((i + 1) * 2654435761u);
   if (width == 8)
     return (i + 1) * 0x9E3779B97F4A7C15ull;
+  if (width == 1)
+    return (uint8_t)((i + 1) * 37u); // 37,74,111,148,185: distinct, non-zero
   return 0;
+}
+
+// version (and, for 1-byte edge data, the width) as it appears in violation
+// keys: 1-byte data fails for a reason of its own (the length test in
+// FileGraph::fromMem), keep it apart from the other widths
+static std::string vtag(int ver, int width) {
+  return std::string("v") + (ver == 1 ? "1" : "2") +
+         (width == 1 ? ",sizeofEdge=1" : "");
 }
 
 template <class T>
@@ -373,7 +399,7 @@ static void decode_gr(const std::string& comp, const std::string& ctx,
     for (uint64_t p = prev; p < end; ++p) {
       uint64_t dst  = get_le(b, offOuts + idw * p, (int)idw);
       uint64_t data = 0;
-      if (d.esz == 4 || d.esz == 8)
+      if (d.esz >= 1 && d.esz <= 8)
         data = get_le(b, offData + d.esz * p, (int)d.esz);
       d.adj[u].push_back(DE(dst, data));
     }
@@ -533,7 +559,7 @@ static void run_tofile(const GIn& g, int ver, int route) {
   std::string ctx = graph_str(g) + " sizeofEdge=" + std::to_string(width) +
                     " v" + std::to_string(ver) + " " + ROUTES[route];
   std::string comp =
-      std::string("FileGraph(v") + (ver == 1 ? "1" : "2") + ") " +
+      "FileGraph(" + vtag(ver, width) + ") " +
       (route == 0 ? "fromFile" : route == 3 ? "fromGraph<T>" : "copy") +
       "->toFile";
   Tmp in(encode_in(c, ver, width));
@@ -594,8 +620,8 @@ static void run_fromfile(const GIn& g, int ver, int variant) {
   rt();
   grf::Csr c = grf::to_csr(g.n, g.el);
   std::string comp = std::string("FileGraph::") +
-                     (variant ? "fromFileInterleaved" : "fromFile") + "(v" +
-                     (ver == 1 ? "1" : "2") + ")";
+                     (variant ? "fromFileInterleaved" : "fromFile") + "(" +
+                     vtag(ver, width) + ")";
   std::string ctx = graph_str(g) + " sizeofEdge=" + std::to_string(width);
   Tmp in(encode_in(c, ver, width));
   gg::FileGraph fg;
@@ -1050,7 +1076,7 @@ static void run_buffered_part(const GIn& g, uint64_t a, uint64_t b) {
 // ---------------------------------------------------------------------------
 // dispatch
 // ---------------------------------------------------------------------------
-// idx = gi * (3 * nvar) + wi * nvar + var
+// idx = gi * (NWIDTHS * nvar) + wi * nvar + var
 #define DISPATCH(wi, CALL)                                                     \
   do {                                                                         \
     if ((wi) == 0) {                                                           \
@@ -1058,6 +1084,9 @@ static void run_buffered_part(const GIn& g, uint64_t a, uint64_t b) {
       CALL;                                                                    \
     } else if ((wi) == 1) {                                                    \
       typedef uint32_t T;                                                      \
+      CALL;                                                                    \
+    } else if ((wi) == 3) {                                                    \
+      typedef uint8_t T;                                                       \
       CALL;                                                                    \
     } else {                                                                   \
       typedef uint64_t T;                                                      \
@@ -1076,15 +1105,15 @@ static sx::EnumCase make_case(const std::string& name,
   c.name  = name;
   c.count = [nvar, quickBoundsAlways](bool th) {
     th = th && !quickBoundsAlways;
-    return graph_count(th) * 3 * nvar(th);
+    return graph_count(th) * NWIDTHS * nvar(th);
   };
   c.run = [nvar, body, quickBoundsAlways](uint64_t idx, bool th) {
     th      = th && !quickBoundsAlways;
     int nv  = nvar(th);
     int var = (int)(idx % nv);
     idx /= nv;
-    int wi = (int)(idx % 3);
-    idx /= 3;
+    int wi = (int)(idx % NWIDTHS);
+    idx /= NWIDTHS;
     GIn g = graph_at(idx, th);
     body(g, wi, var, th);
   };
@@ -1093,8 +1122,8 @@ static sx::EnumCase make_case(const std::string& name,
     int nv  = nvar(th);
     int var = (int)(idx % nv);
     idx /= nv;
-    int wi = (int)(idx % 3);
-    idx /= 3;
+    int wi = (int)(idx % NWIDTHS);
+    idx /= NWIDTHS;
     GIn g = graph_at(idx, th);
     return graph_str(g) + " sizeofEdge=" + std::to_string(WIDTHS[wi]) + " " +
            vdesc(var, th);
